@@ -1,0 +1,9 @@
+//go:build verif
+
+package isobmff
+
+// VerifBoxTypeString exposes boxType.String (verification hook).
+func VerifBoxTypeString(t uint8) string { return boxType(t).String() }
+
+// VerifBoxTypeFromBuf exposes boxTypeFromBuf (verification hook).
+func VerifBoxTypeFromBuf(buf []byte) uint8 { return uint8(boxTypeFromBuf(buf)) }
